@@ -81,6 +81,25 @@ def gen_fed_producer(rng: random.Random) -> dict:
     return {"program": [{"name": "g0", "nodes": nodes, "bound": []}], "values": [["x", rng.randint(0, 3)]]}
 
 
+def gen_pingpong(rng: random.Random) -> dict:
+    """A two-variable cycle A(b)->a, gate, B(a)->b whose variables are BOTH read by a signalling producer P: P is ready in two
+    consecutive steps, so a waiter that has already run meets 'my signal is fresh AND its producer is ready again'."""
+    limit = rng.randint(2, 7)
+    nodes = [
+        {"name": "A", "kind": "fn", "params": [["b", None]], "dataOuts": ["a"], "body": {"b": "sum", "k": 1}},
+        {"name": "G", "kind": "route", "params": [["a", None]], "targets": ["B", "__END__"], "multiTarget": False, "fallback": None, "defaultOpen": True,
+         "body": {"b": "table", "rows": [[v, "B"] for v in range(0, limit)], "dflt": "__END__"}},
+        {"name": "B", "kind": "fn", "params": [["a", None]], "dataOuts": ["b"], "body": {"b": "sum", "k": 1}},
+        {"name": "P", "kind": "fn", "params": [["a", None], ["b", None]], "dataOuts": ["x"], "body": {"b": "sum", "k": 0}, "emits": ["s"]},
+        {"name": "W", "kind": "fn", "params": [["x", None]], "dataOuts": ["seen"], "body": {"b": "tag", "t": "W"}, "waitFor": ["s"]},
+    ]
+    if rng.random() < 0.5:
+        nodes.append({"name": "W2", "kind": "fn", "params": [["a", None]], "dataOuts": ["seen2"], "body": {"b": "tag", "t": "W2"}, "waitFor": ["s"]})
+    if rng.random() < 0.5:
+        rng.shuffle(nodes)
+    return {"program": [{"name": "g0", "nodes": nodes, "bound": []}], "values": [["b", rng.randint(0, 2)]]}
+
+
 def add_multi_wait(rng: random.Random, c: dict) -> dict:
     """Signal loop + a node waiting for TWO names produced at different rates (one per iteration, one once)."""
     c = copy.deepcopy(c)
@@ -115,6 +134,9 @@ class C17(RunProp):
             elif r < 0.6:
                 c = gen_fed_producer(rng)
                 kind = "dag"
+            elif r < 0.68:
+                c = gen_pingpong(rng)
+                kind = "cycle"
             else:
                 c = gen.gen_loop(rng)
                 while c["loop"]["family"] != "signal":
